@@ -52,12 +52,13 @@ Stamps == {"new", "same"}
 Ways(st) == IF st = "none" THEN {"node"} ELSE {"mirror", "bare"}
 MkOp(k, n, p, u) == [Op(k, n, p, "") EXCEPT !.u = u]
 
-\* "write" mode starts from: C1 below R and below G (mirror), K1 below C1, C2 below P
+\* "write" mode starts from: C1 below R and below G (mirror), K1 below C1 (created below the root and
+\* moved there), C2 below P
 SetupOps == << [op |-> Op0("mkup", "G", "R"), w |-> FALSE, inj |-> FALSE, live |-> <<>>, kids |-> [c \in Cs |-> <<>>]],
                [op |-> Op0("mkup", "P", "R"), w |-> FALSE, inj |-> FALSE, live |-> <<>>, kids |-> [c \in Cs |-> <<>>]],
                [op |-> Op0("mk", "C1", "R"), w |-> FALSE, inj |-> FALSE, live |-> <<"R-C1">>, kids |-> [c \in Cs |-> <<>>]],
                [op |-> Op0("mk", "C1", "G"), w |-> FALSE, inj |-> FALSE, live |-> <<"R-C1", "G-C1">>, kids |-> [c \in Cs |-> <<>>]],
-               [op |-> Op0("mkkid", "K1", "C1"), w |-> FALSE, inj |-> FALSE, live |-> <<"R-C1", "G-C1">>, kids |-> ("C1" :> <<"K1">> @@ "C2" :> <<>>)],
+               [op |-> [Op0("mkkid", "K1", "C1") EXCEPT !.u = "moved"], w |-> FALSE, inj |-> FALSE, live |-> <<"R-C1", "G-C1">>, kids |-> ("C1" :> <<"K1">> @@ "C2" :> <<>>)],
                [op |-> Op0("mk", "C2", "P"), w |-> TRUE, inj |-> FALSE, live |-> <<"R-C1", "G-C1", "P-C2">>, kids |-> ("C1" :> <<"K1">> @@ "C2" :> <<>>)] >>
 Init == IF Mode \in {"write", "kids"}
         THEN /\ edge = [x \in Cs \X Par |-> IF x \in {<<"C1", "R">>, <<"C1", "G">>, <<"C2", "P">>} THEN "live" ELSE "none"]
@@ -78,7 +79,10 @@ Del(c, p, w) == /\ edge[<<c, p>>] = "live"
                 /\ edge' = [edge EXCEPT ![<<c, p>>] = "del"] /\ UNCHANGED <<up, kid, batch>>
                 /\ Log(Op("del", c, p, ""), w)
 MkKid(c, w) == /\ Exists(c) /\ kid[c] # "live" /\ kid' = [kid EXCEPT ![c] = "live"] /\ UNCHANGED <<edge, up, batch>>
-               /\ \E u \in Ways(kid[c]), inj \in {FALSE, Building(c)} : LogI(MkOp("mkkid", KidOf(c), c, u), w, inj)
+               \* a child that does not exist yet is either created in place or created elsewhere
+               \* (below the root) and moved here: its older, deleted placement stays in the store
+               /\ \E u \in (Ways(kid[c]) \cup (IF kid[c] = "none" THEN {"moved"} ELSE {})), inj \in {FALSE, Building(c)} :
+                     LogI(MkOp("mkkid", KidOf(c), c, u), w, inj)
 DelKid(c, w) == /\ kid[c] = "live" /\ kid' = [kid EXCEPT ![c] = "del"] /\ UNCHANGED <<edge, up, batch>>
                 /\ \E inj \in {FALSE, Building(c)} : LogI(Op("delkid", KidOf(c), c, ""), w, inj)
 \* point batches (C08): only issued in a quiescent system (the previous operation waited)
@@ -100,7 +104,7 @@ Next == /\ Len(hist) < MaxOps
            THEN \E c \in Cs, w \in BOOLEAN :
                    /\ Building(c)
                    /\ \/ /\ Exists(c) /\ kid[c] # "live" /\ kid' = [kid EXCEPT ![c] = "live"] /\ UNCHANGED <<edge, up, batch>>
-                         /\ \E u \in Ways(kid[c]) : LogI(MkOp("mkkid", KidOf(c), c, u), w, TRUE)
+                         /\ \E u \in (Ways(kid[c]) \cup (IF kid[c] = "none" THEN {"moved"} ELSE {})) : LogI(MkOp("mkkid", KidOf(c), c, u), w, TRUE)
                       \/ /\ kid[c] = "live" /\ kid' = [kid EXCEPT ![c] = "del"] /\ UNCHANGED <<edge, up, batch>>
                          /\ LogI(Op("delkid", KidOf(c), c, ""), w, TRUE)
            ELSE
